@@ -489,9 +489,7 @@ pub trait BackendTransaction {
                             */
                             IdList::Indexed(r)
                         }
-                        (IdList::Indexed(ia), IdList::Partial(ib))
-                        | (IdList::Partial(ia), IdList::Indexed(ib))
-                        | (IdList::Partial(ia), IdList::Partial(ib)) => {
+                        (IdList::Partial(ia), IdList::Indexed(ib)) => {
                             let r = ia.andnot(ib);
                             // DO trigger threshold on partials, because we have to apply the filter
                             // test anyway, so we may as well shortcut at this point.
@@ -502,11 +500,7 @@ pub trait BackendTransaction {
                                 IdList::Partial(r)
                             }
                         }
-                        (IdList::Indexed(ia), IdList::PartialThreshold(ib))
-                        | (IdList::PartialThreshold(ia), IdList::Indexed(ib))
-                        | (IdList::PartialThreshold(ia), IdList::PartialThreshold(ib))
-                        | (IdList::PartialThreshold(ia), IdList::Partial(ib))
-                        | (IdList::Partial(ia), IdList::PartialThreshold(ib)) => {
+                        (IdList::PartialThreshold(ia), IdList::Indexed(ib)) => {
                             let r = ia.andnot(ib);
                             // DO trigger threshold on partials, because we have to apply the filter
                             // test anyway, so we may as well shortcut at this point.
@@ -516,6 +510,17 @@ pub trait BackendTransaction {
                             } else {
                                 IdList::PartialThreshold(r)
                             }
+                        }
+                        // The excluded term is only partially indexed: its id list is a superset of
+                        // the entries it matches, so removing it could drop entries that do match
+                        // this and-not. Keep the candidates and let the filter test decide.
+                        (IdList::Indexed(ia), IdList::Partial(_))
+                        | (IdList::Partial(ia), IdList::Partial(_)) => IdList::Partial(ia),
+                        (IdList::Indexed(ia), IdList::PartialThreshold(_))
+                        | (IdList::PartialThreshold(ia), IdList::PartialThreshold(_))
+                        | (IdList::PartialThreshold(ia), IdList::Partial(_))
+                        | (IdList::Partial(ia), IdList::PartialThreshold(_)) => {
+                            IdList::PartialThreshold(ia)
                         }
 
                         (IdList::Indexed(_), IdList::AllIds)
